@@ -1,4 +1,4 @@
-import CardVerif.Model.Basic
+import CardModel.Model.Basic
 /-!
 # Suit relabellings and reorderings (C18)
 -/
